@@ -327,7 +327,7 @@ impl G {
         if self.r.chance(self.p.p_self_tell) && self.in_peers[a] {
             // a handler sends to its own actor with a bounded wait (an unbounded self-send into a full mailbox would deadlock the workload)
             let uid = self.uid();
-            let t = self.timeout();
+            let t = 2 * self.r.range(1, 3); // always a short bound: this wait can only end by the timeout when the mailbox is full
             s.push(Step::Peer {
                 target: a,
                 kind: SendKind::TellTo(t),
@@ -915,6 +915,7 @@ fn finish(g: &mut G, profile_name: &str, seed: u64, mut actors: Vec<ActorSpec>, 
         teardown,
         sample_until: p.sample_until,
         default_cap: 32,
+        fixed_timing: false,
     }
 }
 
@@ -979,6 +980,7 @@ fn generate_overlap(seed: u64) -> Scenario {
             teardown: vec![Teardown::Stop, Teardown::Stop, Teardown::Kill],
             sample_until: 61,
             default_cap: 32,
+            fixed_timing: true,
         };
     }
     let m1 = Body { uid: nu(), flags: 0, steps: vec![first] };
@@ -1005,6 +1007,7 @@ fn generate_overlap(seed: u64) -> Scenario {
         teardown: vec![Teardown::Stop, Teardown::Stop, Teardown::Kill],
         sample_until: 61,
         default_cap: 32,
+        fixed_timing: true,
     }
 }
 
@@ -1190,13 +1193,15 @@ fn generate_deadlock(seed: u64) -> Scenario {
         teardown,
         sample_until: 41,
         default_cap: 32,
+        fixed_timing: false,
     }
 }
 
 /// Re-time a scenario without changing what it does: extra yields / even-millisecond sleeps at
 /// client operation boundaries and inside hook scripts (all existing suspension points).
 pub fn perturb(sc: &mut Scenario, pert: u64) {
-    if pert == 0 {
+    if pert == 0 || sc.fixed_timing {
+        // fixed_timing: the scenario's safety (no ask cycle at run time) depends on its delays
         return;
     }
     sc.pert = pert;
